@@ -160,6 +160,7 @@ type Obs struct {
 	Name   string  `json:"name,omitempty"`
 	N      int     `json:"n"`
 	Code   int     `json:"code"`
+	RBytes  []Seg   `json:"rbytes,omitempty"`  // wrap: the string Hello returned / the bytes Read left in the buffer
 	RErr    string  `json:"rerr,omitempty"`    // real: what the client's call returned
 	RFields []Field `json:"rfields,omitempty"` // real: the reply as the caller sees it
 }
@@ -465,6 +466,35 @@ func genCases(seed uint64, n int) []Case {
 				Scen: scen, Cut: 1 + r.Intn(12), Cap: cp})
 		}
 	}
+	// The package's own call sites: Hello, tunnel.Write / Read / Close.
+	{
+		bf := func(b []byte) Field { return Field{K: "bytes", B: segsOf(b)} }
+		uf := func(v uint64) Field { return Field{K: "u64", U: strconv.FormatUint(v, 10)} }
+		ifd := func(v int) Field { return Field{K: "int", I: strconv.Itoa(v)} }
+		errs := []Field{{K: "err", Nil: true}, {K: "err", Nil: true}, {K: "err", I: "10", B: segsOf([]byte("eof"))},
+			{K: "err", I: "7", B: segsOf([]byte("broken pipe"))}, {K: "err", I: "6", B: []Seg{}}}
+		for rep := 0; rep < 5; rep++ {
+			sess := hx.PickU64(r, u64Specials)
+			if rep%2 == 0 {
+				sess = r.U64()
+			}
+			e := errs[rep]
+			add(Case{Stream: "call-sites", Op: "wrap", Name: "hello", Sent: []Field{bf(r.Bytes(r.Intn(40)))},
+				RName: "helloResponse", RSent: []Field{bf(r.Bytes(r.Intn(60)))}})
+			payload := r.Bytes(r.Intn(300))
+			add(Case{Stream: "call-sites", Op: "wrap", Name: "write", Sent: []Field{uf(sess), bf(payload)},
+				RName: "writeResponse", RSent: []Field{ifd(r.Intn(len(payload) + 1)), e}})
+			bl := []int{0, 1, 64, 4096, 70000}[rep]
+			rl := bl
+			if bl > 0 && rep%2 == 1 {
+				rl = r.Intn(bl + 1)
+			}
+			add(Case{Stream: "call-sites", Op: "wrap", Name: "read", Sent: []Field{uf(sess), ifd(bl)},
+				RName: "readResponse", RSent: []Field{bf(r.Bytes(rl)), e}})
+			add(Case{Stream: "call-sites", Op: "wrap", Name: "close", Sent: []Field{uf(sess)},
+				RName: "closeResponse", RSent: []Field{e}})
+		}
+	}
 	// remoteErr with an empty message (code != 0, message ""), all reply kinds that carry one
 	for _, s := range errKinds {
 		for _, code := range []int{1, 10, 11, 255} {
@@ -641,6 +671,8 @@ func runCase(c *Case) {
 		}
 	case "real":
 		realCall(c, o)
+	case "wrap":
+		wrapCall(c, o)
 	case "tread":
 		o.N, o.Err = tunnelRead(c.BufLen, c.RepLen)
 	case "hread":
@@ -731,6 +763,93 @@ func realCall(c *Case, o *Obs) {
 		if r.err == nil {
 			o.RFields = fromShim(r.fs)
 		}
+	case <-time.After(10 * time.Second):
+		o.RErr = "hang"
+	}
+	select {
+	case frame := <-frameCh:
+		if frame == nil {
+			o.Err = "other:no request frame"
+			return
+		}
+		c.Input = segsOf(frame)
+		var fs []sniproxy.VerifField
+		var id uint64
+		var typ uint8
+		id, typ, o.Name, fs, o.Err, o.Alloc = sniproxy.VerifStartCall(frame)
+		if o.Err == "ok" {
+			o.ID = strconv.FormatUint(id, 10)
+			o.Typ = int(typ)
+			o.Fields = fromShim(fs)
+		}
+	case <-time.After(2 * time.Second):
+		o.Err = "other:no request frame"
+	}
+}
+
+// wrapCall goes through the package's OWN call sites - endpointClient.Hello,
+// tunnel.Write / Read / Close - instead of a raw call: which request they put
+// on the wire for their arguments and what they return for the reply.
+// c.Name: hello | write | read | close; c.Sent: the arguments (hello: [msg];
+// write: [session, payload]; read: [session, buflen]; close: [session]).
+func wrapCall(c *Case, o *Obs) {
+	pair, err := rpcx.NewWSPair()
+	if err != nil {
+		o.Err = "other:" + err.Error()
+		return
+	}
+	defer pair.Close()
+	client := sniproxy.VerifNewClient(pair.A, nil)
+	frameCh := make(chan []byte, 1)
+	go func() {
+		typ, req, err := pair.B.ReadMessage()
+		if err != nil || typ != websocket.BinaryMessage || len(req) < 9 {
+			frameCh <- nil
+			return
+		}
+		frameCh <- req
+		var id uint64
+		for i := 0; i < 8; i++ {
+			id |= uint64(req[i]) << (8 * i)
+		}
+		frame, _ := sniproxy.VerifEncodeReply(id, req[8], 0, c.RName, toShim(c.RSent))
+		c.Reply = segsOf(frame)
+		pair.B.WriteMessage(websocket.BinaryMessage, frame)
+	}()
+	args := toShim(c.Sent)
+	type res struct {
+		n   int
+		b   []byte
+		err error
+	}
+	done := make(chan res, 1)
+	go func() {
+		ctx, cancel := context.WithTimeout(context.Background(), 8*time.Second)
+		defer cancel()
+		switch c.Name {
+		case "hello":
+			s, err := client.Hello(ctx, string(args[0].B))
+			done <- res{0, []byte(s), err}
+		case "write":
+			n, err := client.Tunnel(args[0].U).Write(args[1].B)
+			done <- res{n, nil, err}
+		case "read":
+			buf := make([]byte, int(args[1].I))
+			n, err := client.Tunnel(args[0].U).Read(buf)
+			if n < 0 || n > len(buf) {
+				done <- res{n, nil, err}
+			} else {
+				done <- res{n, buf[:n], err}
+			}
+		case "close":
+			done <- res{0, nil, client.Tunnel(args[0].U).Close()}
+		}
+	}()
+	select {
+	case r := <-done:
+		o.RErr = sniproxy.VerifCallErrKind(r.err)
+		o.N = r.n
+		o.RBytes = segsOf(r.b)
 	case <-time.After(10 * time.Second):
 		o.RErr = "hang"
 	}
